@@ -609,8 +609,7 @@ def item_templates(ctx, rid):
            "C1_0.1.docs,C1_0.1.name,CompositeIR::enum_field_tokens(C1_0.1,P0.insert_codec_attributes,P2))}))") % E
     PH = "TypeParameters::unused_params_phantom_data(P0.type_params)"
     VARS = "mut[%s;.Vec::push(T[__Ignore ( #0 )](%s@v1::Some.0)) if P0.kind~TypeIRKind::Enum($)&&let v1::Some($)=%s]" % (VAR, PH, PH)
-    exp_enum = ("{if(let v1::Some($)=%s){Vec::push(%s,T[__Ignore ( #0 )](%s@v1::Some.0))}else{'()'};"
-                "Extend::extend(P1,T[#0 #1 pub enum #2 #3 { #( #4 , )* }](P0.derives,TypeIR::docs(P0),TypeIR::ident(P0),P0.type_params,%s))}") % (PH, VARS, PH, VARS)
+    exp_enum = "{Extend::extend(P1,T[#0 #1 pub enum #2 #3 { #( #4 , )* }](P0.derives,TypeIR::docs(P0),TypeIR::ident(P0),P0.type_params,%s))}" % VARS
     if "Enum" in arms:
         expect_term(ctx, rid, "item/enum", fn["sp"], arms["Enum"], exp_enum,
                     "`#derives #docs pub enum #ident #generics { #(#variants,)* }`; variants in order, each `#[codec(index = v.index)]`(iff flag) docs ident fields; "
@@ -753,7 +752,7 @@ def keep_first_or_error(ctx, rid):
 
 
 # ----------------------------------------------------------- C02 / C05 / C17 ----
-def definition_predicate(ctx, rid):
+def definition_predicate(ctx, rid, require_skip_substituted=True):
     """K5+K14: a definition is emitted iff not substituted, namespace non-empty and Composite|Variant; placed in the
     module chain of its namespace under its full path"""
     fn = gen_mod_fn(ctx, rid)
@@ -775,7 +774,11 @@ def definition_predicate(ctx, rid):
     IR = "TypeGenerator::create_type_ir(P0,%s.ty,%s)?" % (E, FLAT)
     exp = ("early{TypeSubstitutes::contains(P0.settings.substitutes,%s.ty.path.segments)=>continue;slice::is_empty(Path::namespace(%s.ty.path))=>continue}"
            "if(let v1::Some($)=%s){{match(BTreeMap::entry(ModuleIR::get_or_insert_submodule(ROOT,Path::namespace(%s.ty.path)).types,%s.ty.path)){%s}}}else{'()'}") % (E, E, IR, E, E, ANY)
-    expect_term(ctx, rid, "define/predicate-and-placement", site(loop), t, exp,
+    exps = [exp]
+    if not require_skip_substituted:
+        # defining a substituted type as well leaves the module closed (an unreferenced extra item)
+        exps.append(exp.replace("TypeSubstitutes::contains(P0.settings.substitutes,%s.ty.path.segments)=>continue;" % E, ""))
+    expect_term(ctx, rid, "define/predicate-and-placement", site(loop), t, exps,
                 "an item is defined iff the path is not substituted, has a namespace (>= 2 segments) and the definition is a struct/enum; "
                 "it is placed in root.get_or_insert_submodule(namespace) under its full path")
     if root is not None:
